@@ -419,6 +419,31 @@ def session_c14(rng, fens):
         e.kill()
 
 
+def session_selfplay(rng, fens):
+    """the engine plays against itself in one process (cache carried over from move to move), as a GUI would drive it"""
+    e = Engine()
+    try:
+        fen = rng.choice(fens)
+        moves = []
+        depth = rng.choice([3, 4, 4])
+        for _ in range(rng.choice([24, 32, 40])):
+            e.send('position fen %s%s' % (fen, (' moves ' + ' '.join(moves)) if moves else ''))
+            e.send('go depth %d' % depth)
+            bm = e.wait_for('bestmove', 120000)
+            if bm is None:
+                e.log({'ev': 'deadline', 'what': 'bestmove', 't': e.now()})
+                return e.events
+            mv = ''.join(bm.get('mv', []))
+            if mv in ('', '0000'):
+                break                       # the game is over
+            moves.append(mv)
+        e.send('quit')
+        e.wait_exit(2500)
+        return e.events
+    finally:
+        e.kill()
+
+
 VOCAB = ['uci', 'isready', 'ucinewgame', 'setoption', 'position', 'go', 'stop', 'quit', 'name', 'value', 'startpos', 'fen', 'moves',
          'depth', 'nodes', 'movetime', 'wtime', 'btime', 'winc', 'binc', 'infinite', 'searchmoves', 'ponder', 'movestogo', 'mate',
          'Hash', 'Threads', 'e2e4', 'e7e5', 'a7a8q', 'e1g1', 'zzzz', '0', '1', '-1', '99999999999999999999', 'abc', '3.5', '']
@@ -629,6 +654,9 @@ def run_process_level(prop, tier, seed, verdict, cov):
         load_lines2(fens, seed)
         nc = 60 if tier == 'quick' else 3000
         jobs += [((lambda s: session_continuation(random.Random(s), fens)), rng.randrange(1 << 30)) for _ in range(nc)]
+    if prop == 'C14':
+        ng = 4 if tier == 'quick' else 120
+        jobs += [((lambda s: session_selfplay(random.Random(s), fens)), rng.randrange(1 << 30)) for _ in range(ng)]
     if prop == 'C15':
         sysl = systematic_lines()
         jobs += [((lambda ls: session_c15(random.Random(seed), fens, lines=ls)), sysl[i:i + 12]) for i in range(0, len(sysl), 12)]
